@@ -57,6 +57,7 @@ THEOREMS = [
     "C11_copy_pop_refuted_inplace",
     "C11_reads_are_pure", "C11_reads_are_pure_from_dict", "C11_reads_are_pure_copy_pop", "C11_read_pure_step",
     "C11_reads_are_pure_satisfiable", "C11_reads_pure_refuted_subclass_copy",
+    "C11_transport_hash",
 ]
 RULE = ("for each attrs class of swh.model.model, each SWHID class and ImmutableDict: generated valid field values; "
         "every dict/list-typed argument is a fresh container kept by the harness; script = setattr+delattr on every "
@@ -67,9 +68,17 @@ RULE = ("for each attrs class of swh.model.model, each SWHID class and Immutable
         "twins 'equal-but-differently-spelled' (== but not identical: True/1/1.0, 0.0/-0.0, nested dicts in another key "
         "order, inside ImmutableDict and every metadata/branches argument): a == b must imply equal hashes or TypeError on "
         "both, one set member, one dict key; twins = equal / same-objects / eq=False-field-differs / one-field-differs / permuted-insertion-order "
-        "arguments.  non-trivial = at least one kept container argument is mutated after construction, or twins "
-        "differing only in insertion order / eq=False fields; distinct = distinct case")
+        "arguments; transport (batches of objects of every class, the SWHID classes and ImmutableDict, full of str/bytes): "
+        "an object HASHED before and one NEVER hashed go through pickle protocols 0-5, copy.copy, copy.deepcopy, and - pickled - "
+        "to one long-lived worker process running the same repo under another PYTHONHASHSEED (and back: built and hashed "
+        "there, unpickled here); afterwards the copy must equal the original and a fresh local twin, hash like them, be the "
+        "same set member / dict key, have the same to_dict()/id/content and still refuse setattr/delattr/item assignment.  "
+        "non-trivial = at least one kept container argument is mutated after construction, or twins "
+        "differing only in insertion order / eq=False fields, or a transport batch; distinct = distinct case")
 TRUSTED = [
+    "the transport worker (harness/c11.py worker_main, started by the harness with another PYTHONHASHSEED; length-prefixed "
+    "pickle frames); the model treats transport as the identity on values and its hash as a function of the content "
+    "(C11_transport_hash): a hash memo that survives transport is a deviation from the model",
     "attrs/CPython contract, modelled not verified: frozen=True generates __setattr__/__delattr__ that raise "
     "FrozenInstanceError, slots=True leaves no __dict__ on model classes, the generated __eq__/__hash__ compare/hash "
     "exactly the eq=True / hash fields of the same class; collections.abc.Mapping.__eq__ compares as dicts; "
@@ -79,6 +88,8 @@ TRUSTED = [
     "by pre_checks against the real classes (identity / mutation probes) and against Generated.v by C11_arg_kinds_table",
 ]
 ASSUMPTIONS = [
+    "transport = pickle (protocols 0-5) and copy/deepcopy; the receiving process differs by its string-hash seed only "
+    "(same interpreter, same repo); other serialisations (msgpack, to_dict/from_dict) are C12's",
     "a 'container passed to a constructor / from_dict' is the argument object itself (for from_dict also the "
     "containers directly under it); containers nested inside it stay shared and are not mutated (DESIGN section 7)",
     "arguments have the declared type of their field: a dict/list given to a field that has neither validator nor "
@@ -886,7 +897,7 @@ def twins_cases(rng, cname):
 
 def gen(rng, tier):
     classes, _ = _classes()
-    n_obj = 20 if tier == "quick" else 500
+    n_obj = 20 if tier == "quick" else 400
     cases = []
     names = sorted(classes)
     missing = [n for n in names if n not in GENS and n not in NOT_INSTANTIABLE]
@@ -909,6 +920,21 @@ def gen(rng, tier):
         items = rmeta_items(rng, hashable=rng.random() < 0.8)
         cases.append({"kind": "twins", "cls": "ImmutableDict", "variation": "same",
                       "args1": [["data", ["d", items]]], "args2": [["data", ["d", items]]]})
+    # transport: every class, objects full of str / bytes (salted hashes); batches = one worker round trip each
+    n_tr = 8 if tier == "quick" else 80
+    specs = []
+    for cname in names:
+        if cname in GENS:
+            specs += [gen_obj(rng, cname, hashable=rng.random() < 0.85) for _ in range(n_tr)]
+    for _ in range(n_tr * 3):
+        items = rmeta_items(rng, hashable=rng.random() < 0.85)
+        while not items:
+            items = rmeta_items(rng, hashable=True)
+        specs.append({"cls": "ImmutableDict", "args": [["data", [rng.choice(["d", "I"]), items]]]})
+    rng.shuffle(specs)
+    batch = 60 if tier == "quick" else 200
+    for i in range(0, len(specs), batch):
+        cases.append(transport_case(rng, specs[i:i + batch]))
     # every permutation of <= 5 items
     for n in ([0, 1, 2, 3, 4, 5] if tier == "quick" else [0, 1, 2, 3, 4, 5, 5, 5, 5, 4, 4, 3]):
         items = []
@@ -935,6 +961,8 @@ def nontrivial(c):
             c["variation"] == "same-objects" and any(v is not None and v[0] in ("I", "d") for _, v in c["args1"]))
     if c["kind"] == "perms":
         return len(c["items"]) >= 2
+    if c["kind"] == "transport":
+        return len(c["objects"]) >= 1
     return False
 
 
@@ -962,6 +990,10 @@ def classify(c):
     elif c["kind"] == "twins":
         ks.append("class=" + c["cls"])
         ks.append("variation=" + c["variation"])
+    elif c["kind"] == "transport":
+        for cname in sorted(set(o["cls"] for o in c["objects"])):
+            ks.append("transported-class=" + cname)
+        ks.append("transport=pickle0-5,copy,deepcopy,cross-process(other PYTHONHASHSEED)")
     return ks
 
 
@@ -1124,7 +1156,16 @@ def impl_script(c):
                     target.pop()
             except (KeyError, IndexError):
                 pass
-        snap = snapshot(obj, twin, same, frozen, copies)
+        try:
+            snap = snapshot(obj, twin, same, frozen, copies)
+        except Exception as e:
+            # the step damaged the object so badly that it can no longer be observed (e.g. a deleted attribute):
+            # that is a change of every observable; report it and stop the script here
+            res["steps"].append(dict({"op": op, "raised": raised,
+                                      "changed": ["<object can no longer be observed: %s>" % core.exc_class(e)]}, **extra))
+            res["frozen_changed"] = [False] * len(frozen_before)
+            res["damaged"] = True
+            return res
         changed = sorted(k for k in set(snap) | set(snap0) if snap.get(k) != snap0.get(k))
         res["steps"].append(dict({"op": op, "raised": raised, "changed": changed}, **extra))
     res["frozen_changed"] = [a != b for a, b in zip(frozen_before, snap["frozen_args"])]
@@ -1193,7 +1234,304 @@ def impl(c):
         return impl_twins(c)
     if c["kind"] == "perms":
         return impl_perms(c)
+    if c["kind"] == "transport":
+        return impl_transport(c)
     return {"error": "a model class has no generator: " + ",".join(c.get("classes", []))}
+
+
+
+# ------------------------------------------------------------------ transport: pickle / copy, in-process and cross-process
+# C11 speaks of histories: an object that has been hashed (used as a set member), pickled / copied, and unpickled -
+# possibly in ANOTHER process whose str/bytes hashes are salted differently - must still be equal to a twin built
+# there from the same arguments, hash like it, be found in sets / dicts holding it, and be immutable.
+WORKER_HASHSEED = "4242"
+_WORKER = {"proc": None, "log": None, "error": None}
+
+
+def _hash_or_U(x):
+    try:
+        return hash(x)
+    except TypeError:
+        return "U"
+
+
+def _todict_or_none(x):
+    if hasattr(x, "to_dict"):
+        try:
+            return render(x.to_dict())
+        except Exception as e:
+            return "raises " + type(e).__name__
+    return None
+
+
+def coherence_facts(x, ref, what, light=False):
+    """x must behave as the same value as ref.  Returns the list of facts that fail (empty = fine).
+    light: ==, hash, set / dict only (content, to_dict and id are compared against another reference)"""
+    bad = []
+    try:
+        eq = bool(x == ref) and bool(ref == x) and not (x != ref)
+    except Exception as e:
+        return ["%s: == raised %s" % (what, type(e).__name__)]
+    if not eq:
+        bad.append(what + ": not equal")
+    if not light:
+        if render(x) != render(ref):
+            bad.append(what + ": content differs")
+        if _todict_or_none(x) != _todict_or_none(ref):
+            bad.append(what + ": to_dict() differs")
+        if getattr(x, "id", None) != getattr(ref, "id", None):
+            bad.append(what + ": id differs")
+    hx, hr = _hash_or_U(x), _hash_or_U(ref)
+    if eq:
+        if (hx == "U") != (hr == "U"):
+            bad.append(what + ": equal, but one is hashable and the other is not")
+        elif hx != "U":
+            if hx != hr:
+                bad.append(what + ": equal but hash differs")
+            if x not in {ref} or ref not in {x} or len({x, ref}) != 1:
+                bad.append(what + ": equal but not the same set member")
+            if {ref: 1}.get(x) != 1 or {x: 1}.get(ref) != 1:
+                bad.append(what + ": equal but not found as dict key")
+    return bad
+
+
+def immutability_facts(x, what):
+    import attr
+    bad = []
+    if attr.has(type(x)):
+        for a in attr.fields(type(x)):
+            if _raises(lambda: setattr(x, a.name, None)) is None:
+                bad.append("%s: setattr(%s) did not raise" % (what, a.name))
+            if _raises(lambda: delattr(x, a.name)) is None:
+                bad.append("%s: delattr(%s) did not raise" % (what, a.name))
+    else:
+        key = next(iter(x), "k")
+        if _raises(lambda: _item_set(x, key)) is None:
+            bad.append(what + ": item assignment did not raise")
+        if _raises(lambda: _item_del(x, key)) is None:
+            bad.append(what + ": item deletion did not raise")
+    return bad
+
+
+def _transports():
+    import copy
+    import pickle
+    ts = [("pickle%d" % p, (lambda x, p=p: pickle.loads(pickle.dumps(x, protocol=p)))) for p in range(0, pickle.HIGHEST_PROTOCOL + 1)]
+    ts += [("copy.copy", copy.copy), ("copy.deepcopy", copy.deepcopy)]
+    return ts
+
+
+def _frames_write(f, obj):
+    import pickle
+    import struct
+    data = pickle.dumps(obj, protocol=4)
+    f.write(struct.pack(">Q", len(data)))
+    f.write(data)
+    f.flush()
+
+
+def _frames_read(f):
+    import pickle
+    import struct
+    hdr = b""
+    while len(hdr) < 8:
+        chunk = f.read(8 - len(hdr))
+        if not chunk:
+            raise EOFError("worker closed the pipe")
+        hdr += chunk
+    (n,) = struct.unpack(">Q", hdr)
+    data = b""
+    while len(data) < n:
+        chunk = f.read(n - len(data))
+        if not chunk:
+            raise EOFError("worker closed the pipe in the middle of a frame")
+        data += chunk
+    return pickle.loads(data)
+
+
+def worker_main():
+    """the other process: another string-hash seed, the same repo under test.  Frames = 8-byte length + pickle."""
+    import os
+    import pickle
+    import sys
+    import traceback
+    inp, out = sys.stdin.buffer, sys.stdout.buffer
+    sys.stdout = sys.stderr              # nothing but frames on the real stdout
+    while True:
+        try:
+            req = _frames_read(inp)
+        except EOFError:
+            return
+        try:
+            if req.get("op") == "ping":
+                import swh.model
+                ans = {"pong": True, "hashseed": os.environ.get("PYTHONHASHSEED"), "probe": hash("c11-probe"),
+                       "swh": os.path.dirname(swh.model.__file__), "pid": os.getpid()}
+            elif req.get("op") == "check":
+                ans = {"items": []}
+                for it in req["items"]:
+                    bad = []
+                    try:
+                        local = _construct(it["cls"], "ctor", it["args"], [])
+                        a = pickle.loads(it["hashed"])          # was hashed in the sender before pickling
+                        b = pickle.loads(it["fresh"])           # never hashed anywhere
+                        bad += coherence_facts(a, local, "hashed, pickled, unpickled in another process vs local twin")
+                        bad += coherence_facts(b, local, "never hashed, pickled, unpickled in another process vs local twin")
+                        bad += coherence_facts(a, b, "the two received objects")
+                        bad += immutability_facts(a, "received object")
+                        back = pickle.dumps(local, protocol=it.get("protocol", 4))    # local has been hashed here by now
+                    except Exception as e:
+                        bad.append("worker: %s while handling the object: %s" % (type(e).__name__, str(e)[:200]))
+                        back = None
+                    ans["items"].append({"bad": bad, "back": back})
+            else:
+                ans = {"worker_exception": "unknown op"}
+        except BaseException as e:        # noqa
+            ans = {"worker_exception": repr(e) + traceback.format_exc()[-800:]}
+        _frames_write(out, ans)
+
+
+def _stop_worker():
+    p = _WORKER["proc"]
+    _WORKER["proc"] = None
+    if p is not None:
+        try:
+            p.stdin.close()
+        except Exception:
+            pass
+        try:
+            p.wait(timeout=2)
+        except Exception:
+            try:
+                p.kill()
+                p.wait(timeout=2)
+            except Exception:
+                pass
+
+
+def _start_worker():
+    """one long-lived worker per run; raises RuntimeError('harness: ...') when it cannot be started / does not answer"""
+    import atexit
+    import os
+    import subprocess
+    import sys
+    import tempfile
+    if _WORKER["proc"] is not None and _WORKER["proc"].poll() is None:
+        return _WORKER["proc"]
+    _stop_worker()
+    seed = WORKER_HASHSEED if os.environ.get("PYTHONHASHSEED") != WORKER_HASHSEED else "2424"
+    env = dict(os.environ, PYTHONHASHSEED=seed, PYTHONPATH=core.VERIF + os.pathsep + core.REPO)
+    env[core.GUARD] = "1"
+    if _WORKER["log"] is None:
+        _WORKER["log"] = tempfile.NamedTemporaryFile(prefix="c11-worker-", suffix=".log", delete=False)
+        atexit.register(_stop_worker)
+    try:
+        p = subprocess.Popen([sys.executable, "-c", "from harness import c11; c11.worker_main()"], cwd=core.VERIF, env=env,
+                             stdin=subprocess.PIPE, stdout=subprocess.PIPE, stderr=_WORKER["log"])
+    except Exception as e:
+        raise RuntimeError("harness: cannot start the transport worker: " + repr(e))
+    _WORKER["proc"] = p
+    try:
+        _frames_write(p.stdin, {"op": "ping"})
+        pong = _frames_read(p.stdout)
+    except Exception as e:
+        _stop_worker()
+        raise RuntimeError("harness: the transport worker does not answer (%r); its stderr is in %s" % (e, _WORKER["log"].name))
+    import swh.model
+    if not pong.get("pong"):
+        _stop_worker()
+        raise RuntimeError("harness: transport worker: bad answer to ping: %r" % (pong,))
+    if os.path.realpath(pong["swh"]) != os.path.realpath(os.path.dirname(swh.model.__file__)):
+        _stop_worker()
+        raise RuntimeError("harness: the transport worker imports swh.model from %s, the check from %s"
+                           % (pong["swh"], os.path.dirname(swh.model.__file__)))
+    if pong["probe"] == hash("c11-probe"):
+        _stop_worker()
+        raise RuntimeError("harness: the transport worker has the SAME string-hash seed as the check")
+    return p
+
+
+def _worker_roundtrip(req):
+    p = _start_worker()
+    try:
+        _frames_write(p.stdin, req)
+        ans = _frames_read(p.stdout)
+    except BaseException as e:            # noqa  (also the case alarm: the stream is out of step -> restart next time)
+        _stop_worker()
+        if isinstance(e, (KeyboardInterrupt, SystemExit)):
+            raise
+        raise RuntimeError("harness: transport worker protocol broke: %r; its stderr is in %s" % (e, _WORKER["log"].name))
+    if "worker_exception" in ans:
+        raise RuntimeError("harness: transport worker: " + ans["worker_exception"])
+    return ans
+
+
+def transport_case(rng, specs):
+    return {"kind": "transport", "objects": [sp if isinstance(sp, dict) else {"cls": sp[1], "args": sp[2]} for sp in specs]}
+
+
+def impl_transport(c):
+    import pickle
+    res = {"n": len(c["objects"]), "bad": [], "in_process_checks": 0, "cross_process_checks": 0}
+    items, twins = [], []
+    for i, o in enumerate(c["objects"]):
+        bad = []
+        try:
+            src_h = _construct(o["cls"], "ctor", o["args"], [])
+            src_n = _construct(o["cls"], "ctor", o["args"], [])
+            twin = _construct(o["cls"], "ctor", o["args"], [])
+        except Exception as e:
+            res["bad"].append({"index": i, "cls": o["cls"], "facts": ["construction raised " + core.exc_class(e)], "harness": True})
+            items.append(None)
+            twins.append(None)
+            continue
+        _hash_or_U(src_h)                       # used as a set member / dict key before it travels
+        try:
+            fresh_pickle = pickle.dumps(src_n, protocol=4)          # never hashed
+            hashed_pickle = pickle.dumps(src_h, protocol=i % (pickle.HIGHEST_PROTOCOL + 1))
+            # copies of the never-hashed object are all taken before anything hashes it
+            copies_n = [(name, t(src_n)) for name, t in _transports()]
+            copies_h = [(name, t(src_h)) for name, t in _transports()]
+        except Exception as e:
+            res["bad"].append({"index": i, "cls": o["cls"], "facts": ["pickle / copy raised %s: %s" % (type(e).__name__, str(e)[:200])]})
+            items.append(None)
+            twins.append(None)
+            continue
+        for label, src, copies in (("hashed before", src_h, copies_h), ("never hashed", src_n, copies_n)):
+            for name, cp in copies:
+                what = "%s of an object %s" % (name, label)
+                bad += coherence_facts(cp, twin, what + " vs fresh twin")
+                bad += coherence_facts(cp, src, what + " vs the original", light=True)
+                bad += immutability_facts(cp, what)
+                res["in_process_checks"] += 1
+        if bad:
+            res["bad"].append({"index": i, "cls": o["cls"], "facts": sorted(set(bad))[:12]})
+        items.append({"cls": o["cls"], "args": o["args"], "hashed": hashed_pickle, "fresh": fresh_pickle,
+                      "protocol": (i + 1) % (pickle.HIGHEST_PROTOCOL + 1)})
+        twins.append(twin)
+    live = [(i, it) for i, it in enumerate(items) if it is not None]
+    if live:
+        try:
+            ans = _worker_roundtrip({"op": "check", "items": [it for _, it in live]})
+        except RuntimeError as e:
+            res["harness_error"] = str(e)
+            return res
+        if len(ans.get("items", [])) != len(live):
+            res["harness_error"] = "harness: transport worker answered %d items for %d" % (len(ans.get("items", [])), len(live))
+            return res
+        for (i, it), r in zip(live, ans["items"]):
+            bad = list(r["bad"])
+            res["cross_process_checks"] += 1
+            if r["back"] is not None:
+                try:
+                    back = pickle.loads(r["back"])               # built AND hashed in the other process
+                    bad += coherence_facts(back, twins[i], "built and hashed in another process, unpickled here vs local twin")
+                    bad += immutability_facts(back, "object received from another process")
+                except Exception as e:
+                    bad.append("unpickling what the worker sent raised %s" % type(e).__name__)
+            if bad:
+                res["bad"].append({"index": i, "cls": it["cls"], "facts": sorted(set(bad))[:12]})
+    return res
 
 
 # ------------------------------------------------------------------ model side
@@ -1259,6 +1597,10 @@ def requests(c):
 
 
 def model(c, resp):
+    if c["kind"] == "transport":
+        # the model's objects are values and its hash is a function of the abstract content only
+        # (C11_transport_hash): every transport is the identity, every coherence fact holds
+        return {"transport": "identity", "bad": []}
     if c["kind"] == "script":
         r = resp[0].split(" ")
         if r[0] != "ok":
@@ -1295,6 +1637,12 @@ CALLER_OPS = ("set", "del", "clear", "app", "idx", "pop")
 
 def oracle(c, ires, mres):
     if c["kind"] == "no-generator":
+        return None
+    if c["kind"] == "transport":
+        real = [b for b in ires.get("bad", []) if not b.get("harness")]
+        if real:
+            b = real[0]
+            return ("%s (object %d of the batch) after transport: %s" % (b["cls"], b["index"], "; ".join(b["facts"][:4])))
         return None
     if "error" in ires and c["kind"] != "script":
         return None if ires["error"] == "raises" else ires["error"]
@@ -1363,6 +1711,15 @@ def oracle(c, ires, mres):
 
 
 def compare(c, ires, mres):
+    if c["kind"] == "transport":
+        if "harness_error" in ires:
+            return "HARNESS ERROR, not a property violation: " + ires["harness_error"]
+        if "error" in ires:
+            return "HARNESS ERROR, not a property violation: the transport case crashed: %s" % ires["error"]
+        hb = [b for b in ires.get("bad", []) if b.get("harness")]
+        if hb:
+            return "HARNESS ERROR, not a property violation: generated object does not build: %r" % (hb[0],)
+        return None
     if c["kind"] == "no-generator":
         return "swh.model.model has attrs classes the C11 harness does not generate: " + ",".join(c["classes"])
     if "model_error" in mres:
@@ -1426,6 +1783,13 @@ def compare(c, ires, mres):
 
 
 def shrink(c):
+    if c["kind"] == "transport" and len(c["objects"]) > 1:
+        n = len(c["objects"])
+        if n > 4:
+            yield dict(c, objects=c["objects"][:n // 2])
+            yield dict(c, objects=c["objects"][n // 2:])
+        for o in c["objects"]:
+            yield dict(c, objects=[o])
     if c["kind"] == "script":
         for i in range(len(c["steps"])):
             yield dict(c, steps=c["steps"][:i] + c["steps"][i + 1:])
@@ -1448,6 +1812,10 @@ def pre_checks(ctx):
     import attr
     import random
     bad = []
+    try:
+        _start_worker()          # the cross-process transport worker: a start-up failure is a harness error, reported as such
+    except RuntimeError as e:
+        bad.append(("harness:transport-worker", str(e)))
     classes, ImmutableDict = _classes()
     try:
         kinds_line = core.run_driver(ID, ["kinds", "tables"])
